@@ -29,7 +29,12 @@ pub enum FormatError {
     TensorTrain(#[from] crate::TTError),
     #[error("io error: {0}")]
     Io(#[from] std::io::Error),
+    #[error("invalid value: {0}")]
+    InvalidValue(String),
 }
+
+/// Largest dimension a stored sparse vector may declare (positions are `u32`).
+const MAX_SPARSE_DIMENSION: usize = u32::MAX as usize;
 
 /// Snapshot file header.
 #[derive(Debug, Clone, Serialize, Deserialize, PartialEq)]
@@ -200,6 +205,8 @@ pub fn decompress_vector(value: &CompressedValue) -> Result<Vec<f32>, FormatErro
                 shape: shape.clone(),
                 ranks: ranks.clone(),
             };
+            // The value may come from a damaged file.
+            tt.validate()?;
             Ok(tt_reconstruct(&tt))
         },
         CompressedValue::IdList(bytes) => {
@@ -213,6 +220,11 @@ pub fn decompress_vector(value: &CompressedValue) -> Result<Vec<f32>, FormatErro
         } => {
             // Decompress positions from delta+varint encoding
             let pos_ids = decompress_ids(positions);
+            if *dimension > MAX_SPARSE_DIMENSION {
+                return Err(FormatError::InvalidValue(format!(
+                    "sparse vector dimension {dimension} exceeds {MAX_SPARSE_DIMENSION}"
+                )));
+            }
             // Reconstruct dense vector
             let mut dense = vec![0.0f32; *dimension];
             for (pos, &val) in pos_ids.iter().zip(values.iter()) {
